@@ -732,7 +732,7 @@ fn eval_ev(req: &str) -> ImplOut {
 
 fn gen_programs(ctx: &Ctx, sink: &mut dyn FnMut(String)) {
     let mut rng = Rng::new(ctx.seed ^ 0xC06);
-    let n = if ctx.tier == Tier::Thorough { 400_000 } else { 5_000 };
+    let n = if ctx.tier == Tier::Thorough { 120_000 } else { 5_000 };
     // regression corpus first
     let corpus_pool: Vec<((i32, i32), V)> = vec![
         ((1, 1), V::Num(1.0)),
